@@ -3,7 +3,7 @@ outer loop kind x up to `depth` nested wrapper blocks x exit statement x guard x
 import itertools
 from .gen import I
 
-LOOPS = ["while", "from_to", "from_through", "from_step", "from_anon", "from_varstep", "from_collide", "from_collide_outer"]
+LOOPS = ["while", "from_to", "from_through", "from_step", "from_anon", "from_varstep", "from_exprstep", "from_collide", "from_collide_outer"]
 WRAPS = ["if", "else", "elif", "while1", "from1"]
 EXITS = ["break", "continue", "return", "none"]
 
@@ -45,7 +45,7 @@ def skeleton(loop, wraps, exit_kind, guarded, in_fn):
     else:
         ex = {"break": ("break",), "continue": ("continue",), "return": ("return", ("bin", "+", V(ivar), I(100)))}[exit_kind]
         if guarded:
-            inner = [P("pre"), ("if", ("bin", "==", V(ivar), I(2 if loop in ("from_step", "from_varstep") else 1)), [P("exit"), ex], None), P("post")]
+            inner = [P("pre"), ("if", ("bin", "==", V(ivar), I(2 if loop in ("from_step", "from_varstep", "from_exprstep") else 1)), [P("exit"), ex], None), P("post")]
         else:
             inner = [P("pre"), ex]
     body = inner
@@ -66,6 +66,10 @@ def skeleton(loop, wraps, exit_kind, guarded, in_fn):
     elif loop == "from_varstep":
         pre = [("decl", "st", None, I(2), ())]
         lp = ("from", I(0), I(6), True, V("st"), ivar, body)
+    elif loop == "from_exprstep":
+        # a step that is a compound expression: `continue` must land on its first instruction
+        pre = [("decl", "st", None, I(1), ())]
+        lp = ("from", I(0), I(6), True, ("bin", "+", V("st"), I(1)), ivar, body)
     elif loop == "from_anon":
         pre = [("decl", ivar, None, I(-1), ())]
         lp = ("from", I(0), I(4), False, None, None, [("decl", ivar, None, ("bin", "+", V(ivar), I(1)), ())] + body)
